@@ -419,3 +419,70 @@ def flat_member(x, o):
     if isinstance(o, g.Plane):
         return SP.on_plane(x, SP.vec(o.p), SP.vec(o.n))
     raise TypeError("no flat denotation for %r" % (type(o),))
+
+
+# ---------------------------------------------------------------------------
+# convex polygon / polyhedron operands (shape = number of vertices / faces)
+# ---------------------------------------------------------------------------
+
+def polygon(vc, name, n, convex=True):
+    """a valid ConvexPolygon with n vertices: coplanar, unit normal, (optionally) strictly convex position
+    counter-clockwise about the normal stated for ALL edge/vertex pairs, centre = vertex mean"""
+    g = G()
+    pg = g.ConvexPolygon.__new__(g.ConvexPolygon)
+    pts = [P(vc, "%s.p%d" % (name, i)) for i in range(n)]
+    pl = g.Plane.__new__(g.Plane)
+    pl.n = V(vc, name + ".n")
+    nv = SP.vec(pl.n)
+    vc.assume(SP.eq(SP.norm2(nv), 1), "invariant Plane: |n| = 1")
+    pl.p = P(vc, name + ".plane_p")
+    pp = SP.vec(pl.p)
+    for p in pts:
+        vc.assume(SP.eqz(SP.dot(SP.sub(SP.vec(p), pp), nv)), "invariant ConvexPolygon: vertices lie in its plane")
+    if convex:
+        for i in range(n):
+            a, b = SP.vec(pts[i]), SP.vec(pts[(i + 1) % n])
+            for j in range(n):
+                if j in (i, (i + 1) % n):
+                    continue
+                vc.assume(SP.gtz(SP.dot(nv, SP.cross(SP.sub(b, a), SP.sub(SP.vec(pts[j]), a)))), "invariant ConvexPolygon: strictly convex, counter-clockwise about the normal (all pairs)")
+    pg.points = tuple(pts)
+    pg.plane = pl
+    cx = [sum(SP.vec(p)[k] for p in pts) / n for k in range(3)]
+    pg.center_point = g.Point(*cx)
+    return pg
+
+
+def polygon_member(x, pg):
+    """denotation of a convex polygon: in its plane and on the inner side of every directed edge"""
+    nv, pp = SP.vec(pg.plane.n), SP.vec(pg.plane.p)
+    pts = [SP.vec(p) for p in pg.points]
+    n = len(pts)
+    conds = [SP.on_plane(x, pp, nv)]
+    for i in range(n):
+        a, b = pts[i], pts[(i + 1) % n]
+        conds.append(SP.gez(SP.dot(nv, SP.cross(SP.sub(b, a), SP.sub(x, a)))))
+    return And(*conds)
+
+
+def polyhedron_faces(vc, name, F_):
+    """an opaque-face ConvexPolyhedron: each face is known only through (centre point, outward unit normal)"""
+    g = G()
+    ph = g.ConvexPolyhedron.__new__(g.ConvexPolyhedron)
+    faces = []
+    for i in range(F_):
+        f = g.ConvexPolygon.__new__(g.ConvexPolygon)
+        f.center_point = P(vc, "%s.f%d.c" % (name, i))
+        pl = g.Plane.__new__(g.Plane)
+        pl.n = V(vc, "%s.f%d.n" % (name, i))
+        vc.assume(SP.eq(SP.norm2(SP.vec(pl.n)), 1), "invariant: unit face normal")
+        pl.p = f.center_point
+        f.plane = pl
+        faces.append(f)
+    ph.convex_polygons = faces
+    return ph
+
+
+def polyhedron_member(x, ph):
+    """denotation of a convex polyhedron: not strictly outside any outward-oriented face"""
+    return And(*[SP.lez(SP.dot(SP.sub(x, SP.vec(f.center_point)), SP.vec(f.plane.n))) for f in ph.convex_polygons])
